@@ -30,22 +30,29 @@ vars == <<act, shareId, userId, out, cbs, inres, obs>>
 IoChan == 1003
 
 States == {"WaitDemandActive", "WaitSync", "WaitCoop", "WaitGranted", "WaitFontMap", "Active"}
-Letters == {"DA", "SYNC", "COOP", "GRANTED", "CTLOTHER", "FONTMAP", "ERRINFO", "UNKDATA", "DEACT", "FPBMP", "FPOTHER"}
+Letters == {"DA", "SYNC", "COOP", "GRANTED", "CTLOTHER", "FONTMAP", "ERRINFO", "UNKDATA", "DEACT", "FPBMP", "FPOTHER",
+            "ULT", "OFFCHAN"}    \* session level: disconnect-provider ultimatum; a PDU on another channel than the I/O channel
 
 (***************************************************************************)
 (* Abstract server messages (what WireServer!DecServer returns).           *)
 (***************************************************************************)
 HasBitmapUpdate(m) == \E k \in 1..Len(m.updates) : m.updates[k].t = "Bitmap"
 
+\* a slow-path PDU addressed to another MCS channel than the I/O channel is not for the activation automaton,
+\* whatever it contains (mcs::Client::read / RdpClient::read refuse it)
+OffChannel(m) == "channel" \in DOMAIN m /\ m.channel # IoChan
+
 Letter(m) ==
-  CASE m.kind = "DemandActive"  -> "DA"
-    [] m.kind = "Sync"          -> "SYNC"
-    [] m.kind = "Control"       -> (IF m.action = 4 THEN "COOP" ELSE IF m.action = 2 THEN "GRANTED" ELSE "CTLOTHER")
-    [] m.kind = "FontMap"       -> "FONTMAP"
-    [] m.kind = "ErrInfo"       -> "ERRINFO"
-    [] m.kind = "UnknownData"   -> "UNKDATA"
-    [] m.kind = "DeactivateAll" -> "DEACT"
-    [] m.kind = "FastPath"      -> (IF HasBitmapUpdate(m) THEN "FPBMP" ELSE "FPOTHER")
+  CASE m.kind = "SrvUltimatum"  -> "ULT"
+    [] m.kind # "SrvUltimatum" /\ OffChannel(m) -> "OFFCHAN"
+    [] ~OffChannel(m) /\ m.kind = "DemandActive"  -> "DA"
+    [] ~OffChannel(m) /\ m.kind = "Sync"          -> "SYNC"
+    [] ~OffChannel(m) /\ m.kind = "Control"       -> (IF m.action = 4 THEN "COOP" ELSE IF m.action = 2 THEN "GRANTED" ELSE "CTLOTHER")
+    [] ~OffChannel(m) /\ m.kind = "FontMap"       -> "FONTMAP"
+    [] ~OffChannel(m) /\ m.kind = "ErrInfo"       -> "ERRINFO"
+    [] ~OffChannel(m) /\ m.kind = "UnknownData"   -> "UNKDATA"
+    [] ~OffChannel(m) /\ m.kind = "DeactivateAll" -> "DEACT"
+    [] ~OffChannel(m) /\ m.kind = "FastPath"      -> (IF HasBitmapUpdate(m) THEN "FPBMP" ELSE "FPOTHER")
 
 (***************************************************************************)
 (* Client messages, as projections of what WireClient!DecClient returns.   *)
@@ -162,6 +169,8 @@ ModelMsgs ==
   \cup { [kind |-> "Control", action |-> a] : a \in {1, 2, 3, 4} }
   \cup { [kind |-> "FastPath", updates |-> <<[t |-> "Bitmap"]>>, rects |-> rs] : rs \in RectSeqs }
   \cup { [kind |-> "FastPath", updates |-> <<[t |-> "Other", code |-> 5]>>, rects |-> <<>>] }
+  \cup { [kind |-> "SrvUltimatum"] }
+  \cup { [kind |-> "Sync", channel |-> c] : c \in {1004, 1005} } \cup { [kind |-> "DemandActive", shareId |-> s, channel |-> 1004] : s \in ShareIds }
 
 ModelInputs ==
        { [t |-> "ptr", x |-> x, y |-> y, b |-> b, down |-> d] : x \in Coords, y \in Coords, b \in 0..3, d \in BOOLEAN }
